@@ -6,13 +6,15 @@ C04 — A client sees its own location's records plus untagged ones, nothing els
 * Model level, v1 key layouts (CDB, RocksDB v1 keys): every response of `Serve.serve` for a client
   at location `l` is unchanged when keys tagged with any other location are added, changed or
   deleted (`serve_v1_frame`) — full strength, arbitrary stores.
-* v2 key layout: the analogous statement `serve_v2_frame_full` is FALSE
-  (`serve_v2_frame_full_false`): for a zone that has an SOA but no NS, a record of another location
-  changes the authority section. Confirmed on the real code.
+* v2 key layout: the same frame property (`serve_v2_frame`), for stores with canonical keys and
+  well-formed *visible* rows, through `serve v2 = serve v1` (C02). Before the repair of the v2
+  `IsAuthoritative` (zone cut when no NS is on the path) it was false; the former witness is kept
+  as an example of the theorem.
 
-Property theorems only; lemmas are in `Proofs/ServeSafety.lean`.
+Property theorems only; lemmas are in `Proofs/ServeSafety.lean`, `Proofs/ServeV2.lean`.
 -/
 import DnsVerif.Proofs.ServeSafety
+import DnsVerif.Proofs.ServeV2
 
 namespace DnsVerif.Props.C04
 open DnsVerif DnsVerif.Name DnsVerif.Loc DnsVerif.Serve DnsVerif.ServeSafety
@@ -95,7 +97,7 @@ example : serve ⟨.rdbV1, st1, [120,120]⟩ qA = .reply
 /-- the hypothesis matters: location `yy` is answered differently by the two stores -/
 example : serve ⟨.rdbV1, st1, [121,121]⟩ qA ≠ serve ⟨.rdbV1, st2, [121,121]⟩ qA := by decide +kernel
 
-/-! ### 3. the v2 key layout: the frame property FAILS (for zones that have an SOA but no NS) -/
+/-! ### 3. the v2 key layout -/
 
 /-- two v2 stores hold the same entries under every resource-record key whose location (its last
 two bytes) is `l` or none, and the same entries under every key that is not a resource-record key:
@@ -105,30 +107,80 @@ def AgreeOnV2 (l : Bytes) (s₁ s₂ : Store) : Prop :=
       k.drop (k.length - 2) = l ∨ k.drop (k.length - 2) = [0, 0]) →
     s₁.get k = s₂.get k ∧ (s₁.any (·.1 = k) = s₂.any (·.1 = k))
 
-/-- The v2 analogue of `serve_v1_frame`, for stores with well-formed keys and wire-valid names.
+/-- **v2 layout: records tagged with any other location can be added, changed or deleted without
+changing any response to a client at location `l`.**
 
-Why it is harder than v1 (and in fact false): with v1 keys every lookup is an exact `get` on
-`l ++ name` or `[0,0] ++ name`, so foreign keys are never touched. With v2 keys the location is the
-key's *suffix* and the search is `SeekForPrev`: keys of other locations are neighbours in key order
-of the keys looked for, and they ARE returned by the seek. They decide (a) whether the second,
-untagged lookup is made (`fk.take (len-2) = nameKey`), and (b) the key from which the next search
-level is computed (`foundLabel` → parent, or longest common prefix): with a foreign key below the
-search key the walk visits levels it would otherwise jump over, and it goes on past the point
-where it would otherwise stop for lack of a marker-carrying predecessor. The latter changes the
-`zoneCut` that `IsAuthoritative` returns when no NS is found on the way up (SOA without NS):
-`zoneCut` is simply the last level visited, and `FindSOA` looks for the SOA there. -/
-def serve_v2_frame_full : Prop :=
-  ∀ (s₁ s₂ : Store) (l : Bytes) (q : Query) (ls : List Bytes),
-    l.length = 2 → V2KeysOk s₁ → V2KeysOk s₂ → AgreeOnV2 l s₁ s₂ →
-    Name.unpack q.qname = some ls → (∀ lab ∈ ls, lab.length < 64) →
-    serve ⟨.rdbV2, s₁, l⟩ q = serve ⟨.rdbV2, s₂, l⟩ q
+Why this is harder than v1: with v1 keys every lookup is an exact `get` on `l ++ name` or
+`[0,0] ++ name`, so foreign keys are never touched. With v2 keys the location is the key's *suffix*
+and the search is `SeekForPrev`: keys of other locations are neighbours in key order of the keys
+looked for, and they ARE returned by the seek. They decide whether the second, untagged lookup is
+made and from which key the next search level is computed; with a foreign key below the search key
+the walk visits levels it would otherwise jump over. The proof goes through the v1 layout: on
+canonical keys the v2 handler equals the v1 handler over the derived v1 store
+(`Props.C02.serve_v2_eq_v1`, which rests on the literal equality of the two `IsAuthoritative`s),
+and the v1 handler has the frame property (`serve_v1_frame`).
 
-/-! The witness, found by random search over compiled databases and confirmed on the real code
-(see the report): data file A is `Zb.a,m.b.a,h.b.a,1,2,3,4,5,60,,xx` (an SOA for `b.a.` visible to
-location `xx`, no NS anywhere), data file B is A plus `+a,10.0.0.48,30,,yy` (an address for `a.`
-visible to location `yy` only). The stores below are exactly what the compiler produces for them
-with v2 keys. A client at `xx` asking `b.a. A` gets the SOA in the authority section from A and an
-empty authority section from B. -/
+Before the commit "fix: v2 IsAuthoritative reports the root…" the statement was FALSE: for a zone
+with an SOA but no NS, the v2 `IsAuthoritative` reported the last level visited as zone cut, a
+foreign key made the walk visit one more level, and `FindSOA` then looked for the SOA elsewhere
+(stores `v2A` / `v2B` below: a client at `xx` asking `b.a. A` got the SOA in the authority section
+from `v2A` and an empty authority section from `v2B`; confirmed on the real code at the time).
+
+Hypotheses: canonical keys in both stores (`V2Canonical`: every key under the marker is
+`marker ++ pack reversed-owner ++ 2-byte location` with labels of 1…255 bytes, or the features key);
+the rows *visible to `l`* parse without panic and have NS / MX targets that lower-case to wire names
+(`StoreRowsOKAt`, see `Props.C02.serve_v2_eq_v1`) — nothing is asked of the foreign rows, they may
+be malformed; the request name is `pack q` with labels of 1…63 bytes, at most 255 octets, and the
+name as asked lower-cases to it. All decidable. -/
+theorem serve_v2_frame (s₁ s₂ : Store) (l : Bytes) (rq : Query) (q : List Bytes)
+    (hl : l.length = 2) (hc1 : ServeV2.V2Canonical s₁) (hc2 : ServeV2.V2Canonical s₂)
+    (h : AgreeOnV2 l s₁ s₂) (hr1 : ServeV2.StoreRowsOKAt s₁ l) (hr2 : ServeV2.StoreRowsOKAt s₂ l)
+    (hq : RevOrder.NameOK64 q) (hlen : (pack q).length ≤ 255) (hqn : rq.qname = pack q)
+    (hqo : toLower rq.qnameOut = rq.qname) :
+    serve ⟨.rdbV2, s₁, l⟩ rq = serve ⟨.rdbV2, s₂, l⟩ rq := by
+  refine ServeV2.serve_v2_frame' s₁ s₂ hl hc1 hc2 (fun a loc _ hloc => ?_) hr1 hr2 q hq (by omega) rq hqn hqo
+  have hll : loc.length = 2 := by rcases hloc with e | e <;> rw [e] <;> first | exact hl | rfl
+  have hsuf : (RevOrder.Key a loc).drop ((RevOrder.Key a loc).length - 2) = loc := by
+    have e : RevOrder.Key a loc = (RevOrder.marker ++ pack a) ++ loc := by simp [RevOrder.Key, RevOrder.K]
+    rw [e, List.length_append, hll, Nat.add_sub_cancel]
+    exact List.drop_left
+  exact (h _ (Or.inr (by rw [hsuf]; exact hloc))).1
+
+/-! non-vacuity: the v2 counterparts of `st1` / `st2` (the `yy` key replaced, a `zz` NS added) -/
+
+def vs1 : Store :=
+  [(RevOrder.Key [[98]] [0,0], [nsRow, soaRow]), (RevOrder.Key [[98],[97]] [0,0], [aRow 1]),
+   (RevOrder.Key [[98],[97]] [120,120], [aRow 2]), (RevOrder.Key [[98],[97]] [121,121], [aRow 3]),
+   (Generated.dnsdata_FeaturesKey, [[2,0,0,0]])]
+def vs2 : Store :=
+  [(RevOrder.Key [[98]] [122,122], [nsRow]), (RevOrder.Key [[98]] [0,0], [nsRow, soaRow]),
+   (RevOrder.Key [[98],[97]] [0,0], [aRow 1]), (RevOrder.Key [[98],[97]] [120,120], [aRow 2]),
+   (RevOrder.Key [[98],[97]] [121,121], [aRow 7, [1]]), (Generated.dnsdata_FeaturesKey, [[2,0,0,0]])]
+
+theorem vs1_vs2_agree : AgreeOnV2 [120,120] vs1 vs2 := by
+  intro k hk
+  have h1 : ¬ (RevOrder.Key [[98],[97]] [121,121] = k) := by intro h; subst h; revert hk; decide
+  have h2 : ¬ (RevOrder.Key [[98]] [122,122] = k) := by intro h; subst h; revert hk; decide
+  constructor
+  · simp only [vs1, vs2, get_cons, if_neg h1, if_neg h2]
+  · simp [vs1, vs2, h1, h2]
+
+example : serve ⟨.rdbV2, vs1, [120,120]⟩ qA = serve ⟨.rdbV2, vs2, [120,120]⟩ qA :=
+  serve_v2_frame vs1 vs2 [120,120] qA [[97],[98]] rfl (by decide +kernel) (by decide +kernel) vs1_vs2_agree
+    (by decide +kernel) (by decide +kernel) (by decide) (by decide) rfl rfl
+/-- and the reply is a real one (the `xx` and the untagged address) -/
+example : serve ⟨.rdbV2, vs1, [120,120]⟩ qA = .reply
+    { rcode := 0, aa := true, answer := [],
+      answerAddrs := [⟨[1,97,1,98,0], 1, 1, [⟨30, 1, [10,0,0,2]⟩, ⟨30, 1, [10,0,0,1]⟩], 1⟩],
+      ns := [], extra := [] } := by decide +kernel
+/-- the hypothesis matters: location `yy` is answered differently by the two stores -/
+example : serve ⟨.rdbV2, vs1, [121,121]⟩ qA ≠ serve ⟨.rdbV2, vs2, [121,121]⟩ qA := by decide +kernel
+
+/-! The former counterexample (found by random search over compiled databases, confirmed on the
+real code before the fix): data file A is `Zb.a,m.b.a,h.b.a,1,2,3,4,5,60,,xx` (an SOA for `b.a.`
+visible to location `xx`, no NS anywhere), data file B is A plus `+a,10.0.0.48,30,,yy` (an address
+for `a.` visible to location `yy` only). The stores below are exactly what the compiler produces
+for them with v2 keys. They now fall under `serve_v2_frame`. -/
 
 def soaXX : Bytes := [0,6,62,120,120, 0,0,0,60, 0,0,0,0,0,0,0,0, 1,109,1,98,1,97,0, 1,104,1,98,1,97,0,
   0,0,0,1, 0,0,0,2, 0,0,0,3, 0,0,0,4, 0,0,0,5]
@@ -147,31 +199,25 @@ theorem v2A_v2B_agree : AgreeOnV2 [120,120] v2A v2B := by
   · simp only [v2A, v2B, get_cons, if_neg h2]
   · simp [v2A, v2B, h2]
 
-theorem v2A_v2B_differ : serve ⟨.rdbV2, v2A, [120,120]⟩ qBA ≠ serve ⟨.rdbV2, v2B, [120,120]⟩ qBA := by
-  decide +kernel
+theorem v2A_v2B_same : serve ⟨.rdbV2, v2A, [120,120]⟩ qBA = serve ⟨.rdbV2, v2B, [120,120]⟩ qBA :=
+  serve_v2_frame v2A v2B [120,120] qBA [[98],[97]] rfl (by decide +kernel) (by decide +kernel) v2A_v2B_agree
+    (by decide +kernel) (by decide +kernel) (by decide) (by decide) rfl rfl
 
-/-- the authority section loses the SOA -/
+/-- both now answer NODATA with an empty authority section (the zone cut is the root, where there
+is no SOA), as the v1 layout always did -/
 example : serve ⟨.rdbV2, v2A, [120,120]⟩ qBA = .reply
-    { rcode := 0, aa := true, answer := [], answerAddrs := [],
-      ns := [⟨[1,98,1,97,0], 6, 1, 60, soaXX.drop 17⟩], extra := [] } := by decide +kernel
-example : serve ⟨.rdbV2, v2B, [120,120]⟩ qBA = .reply
     { rcode := 0, aa := true, answer := [], answerAddrs := [], ns := [], extra := [] } := by decide +kernel
 
-/-- The v2 layout does NOT have the frame property: a record of another location changes a
-response. -/
-theorem serve_v2_frame_full_false : ¬ serve_v2_frame_full := by
-  intro h
-  exact v2A_v2B_differ (h v2A v2B [120,120] qBA [[98], [97]] rfl
-    (by unfold V2KeysOk; decide) (by unfold V2KeysOk; decide) v2A_v2B_agree (by decide) (by decide))
-
-/-- What remains plausible (NOT proved; no counterexample in the random search): the frame
-property for queries whose zone cut is found through an NS record in both stores. -/
-def serve_v2_frame_ns : Prop :=
+/-- The same statement for stores that only satisfy `V2KeysOk` (the hypothesis of C13: a key under
+the marker *starts* with a wire name, anything may follow) and arbitrary rows. NOT proved and not
+refuted (no counterexample in the random search after the fix). What `serve_v2_frame` lacks for
+it: keys that are not canonical (bytes between the name and the location, labels of the stored
+name that the seek order does not separate), and visible rows that panic / targets with labels
+over 64 bytes — for those the detour through the v1 layout is not available. -/
+def serve_v2_frame_full : Prop :=
   ∀ (s₁ s₂ : Store) (l : Bytes) (q : Query) (ls : List Bytes),
     l.length = 2 → V2KeysOk s₁ → V2KeysOk s₂ → AgreeOnV2 l s₁ s₂ →
     Name.unpack q.qname = some ls → (∀ lab ∈ ls, lab.length < 64) →
-    (∀ c, isAuthoritative ⟨.rdbV2, s₁, l⟩ q.qname = .ok c → c.ns = true) →
-    (∀ c, isAuthoritative ⟨.rdbV2, s₂, l⟩ q.qname = .ok c → c.ns = true) →
     serve ⟨.rdbV2, s₁, l⟩ q = serve ⟨.rdbV2, s₂, l⟩ q
 
 end DnsVerif.Props.C04
